@@ -34,6 +34,12 @@
                          is written (`write_learned_same`, `write_pipeline_same`)
     closure              `Writable` under reverse / complement / rotate / delete / erase / insert /
                          embed / concat (`writable_*`), `WritableRecord` under complement
+    CRLF input           the CRLF translation of the written text (every line feed replaced by CR LF) read
+                         by `GenBankParser`: exactly `readBackC` (`read_write_crlf_exact`) — the record of the
+                         LF reading except that a value written between quotes comes back with CR LF where it
+                         had a line feed (finding F36: `read_write_crlf_full_refuted`, witness replayed on the
+                         real code); the same record, registry and rest as the LF reading under the guard
+                         `quotedOneLine` (`read_write_crlf_partial`); streams (`read_stream_crlf_*`)
 -/
 import Gts.Lemmas.GbReadWrite
 import Gts.Lemmas.GbFixed
@@ -42,6 +48,7 @@ import Gts.Lemmas.GbSecond
 import Gts.Lemmas.GbEdit
 import Gts.Lemmas.GbLocRT
 import Gts.Lemmas.GbProps
+import Gts.Lemmas.GbCrlfReadWrite
 namespace Gts.C01
 open Gts Gts.Pars Gts.GenBank
 
@@ -852,5 +859,252 @@ example : Writable Registry.default (ofSeq locusWitness editHost) editHost.bytes
     editHost.bytes.length + editGuest.bytes.length < 10 ^ 9 ∧
     WritableRecord Registry.default (ofSeq locusWitness editHost) editHost.bytes = true := by
   refine ⟨by decide +kernel, by decide +kernel, by decide +kernel, by decide +kernel, by decide +kernel, by decide +kernel⟩
+
+/-! ## CRLF input: the written text after a CRLF-translating transport
+
+`Origin.crlf t` replaces every line feed of `t` by CR LF (`crlf_is_fasta_crlf`: the same function as the
+`crlf` of the FASTA model, C17) — the line ends of the file, and the line feeds inside multi-line field
+texts and qualifier values with them, which is what a transport in text mode does to the bytes.  The
+reader's line primitives take CR LF as one terminator (`pars.Line`, `pars.EOL`), so every header field,
+the key lines, literal and toggle qualifiers, CONTIG and the terminator read exactly as from the LF
+text, and the ORIGIN block — which the fast path rejects: a carriage return stands where the line feed
+of the first line should — is rebuilt by the slow path (C16).  The ONE place where the CRLF text reads
+differently is a value written between quotes that contains a line feed: `pars.Quoted` hands over the
+raw bytes between the quotes and `quotedQualifierParser` deletes the continuation indent behind every
+`"\n"`, so the carriage return in front of it stays inside the value (finding F36). -/
+
+/-- the CRLF translation used here is the one of the FASTA model (C17 `scan_write_all_crlf`) -/
+theorem crlf_is_fasta_crlf (t : Bytes) : Origin.crlf t = Fasta.crlf t := crlf_eq_fasta t
+
+example : Origin.crlf (bs "a\nb\r\n") = bs "a\r\nb\r\r\n" := by decide
+
+/-- **C06 → C01, CRLF**: the printed form of every canonical location is read back by `ParseLocation`
+in front of the carriage return that ends a key line of a CRLF file (`LocRTC`). -/
+theorem locations_crlf_from_C06 (l : Loc) (h : Loc.canonP l = true) : LocRTC l := locRTC_of_canon l h
+
+example : Loc.canonP (.joined [.ranged 1 4 false false, .compl (.point 7)]) = true := by decide +kernel
+
+/-- **One qualifier in a CRLF file** (`QualifierParser(prefix)` on the CRLF translation of
+`QualifierIO.Format(prefix)`, followed by CR LF): the same name and the same registry step as from the
+LF text; the value is `crlfValue reg name value` — the value itself for a literal (read line by line
+with `pars.Line`) and a toggle (`pars.EOL` takes CR LF), and THE CRLF TRANSLATION of the value for a
+value written between quotes (a name registered as quoted, or unknown).  Same domain
+`WritableQualifier` as `qualifier_roundtrip`. -/
+theorem qualifier_crlf (reg : Registry) (d : Nat) (name value rest : Bytes) (stk : List Bytes)
+    (hw : WritableQualifier reg d name value = true) (hstop : litStop d rest) :
+    qualifier (sp d) reg ⟨Origin.crlf (qualifierFmt reg (sp d) name value) ++ 13 :: 10 :: rest, stk⟩ =
+      (.ok ((name, readValue reg name (crlfValue reg name value)), learn reg name), ⟨rest, stk⟩) :=
+  qualifier_roundtripC reg d name value rest stk hw hstop
+
+/-- non-vacuity: a two-line quoted value comes back with CR LF inside, a two-line literal value as
+it is, a one-line quoted value as it is -/
+example :
+    WritableQualifier Registry.default 21 (bs "note") (bs "a\nb") = true ∧
+    crlfValue Registry.default (bs "note") (bs "a\nb") = bs "a\r\nb" ∧
+    WritableQualifier Registry.default 21 (bs "transl_except") (bs "(pos:1..3,\n aa:Met)") = true ∧
+    crlfValue Registry.default (bs "transl_except") (bs "(pos:1..3,\n aa:Met)") = bs "(pos:1..3,\n aa:Met)" ∧
+    crlfValue Registry.default (bs "note") (bs "one line") = bs "one line" := by decide +kernel
+
+/-- **ORIGIN in a CRLF file.**  For at least one and fewer than 10^9 printable residues: on the first
+`toOriginLength(length)` bytes of the CRLF translation of the written block the fast path
+(`validateOrigin`) reports an ERROR, it does not panic; `makeGenbankOriginParser`, run on the header
+line and the translated block followed by ANY text that does not start with a blank, falls back to
+the slow path and returns the block as it was written (LF line ends) — the same `Origin` as from the
+LF file, the following text untouched, the stack cleared. -/
+theorem origin_crlf (p rest : Bytes) (stk : List Bytes) (hp : ∀ c ∈ p, Origin.isBase c = true)
+    (hlen : p.length < 10 ^ 9) (hne : p ≠ []) (hrest : rest.head? ≠ some 32) :
+    Origin.validateOrigin ((Origin.crlf (Origin.originStream p) ++ rest).take (Origin.tl p.length)) p.length =
+      .error .fail ∧
+    originField (p.length : Int) 12 ⟨Origin.crlf (bs "ORIGIN      \n" ++ Origin.originStream p) ++ rest, stk⟩ =
+      (.ok (Origin.originStream p), ⟨rest, []⟩) := by
+  refine ⟨Origin.validateOrigin_crlf_fail p rest hne hp hlen, ?_⟩
+  have h1 : Origin.crlf (bs "ORIGIN      \n") = bs "ORIGIN      " ++ [13, 10] := by decide
+  have e : Origin.crlf (bs "ORIGIN      \n" ++ Origin.originStream p) ++ rest =
+      bs "ORIGIN      " ++ 13 :: 10 :: (Origin.crlf (Origin.originStream p) ++ rest) := by
+    rw [crlf_append, h1]; simp
+  rw [e]
+  exact origin_roundtripC p rest stk hp hlen hne hrest
+
+example : (∀ c ∈ List.replicate 70 (97 : UInt8), Origin.isBase c = true) ∧ (List.replicate 70 (97 : UInt8)).length < 10 ^ 9 ∧
+    List.replicate 70 (97 : UInt8) ≠ [] := by
+  refine ⟨by decide +kernel, by decide, by decide⟩
+
+/-- **FEATURES in a CRLF file.**  The CRLF translation of the section `GenBank.String` writes for a
+non-empty table, read by `genbankFeatureParser`: keys, locations, qualifier names, their order and
+the registry as from the LF text (`features_roundtrip_canon`); every feature comes back as
+`readFeatureC` — `readFeature` with the values written between quotes CRLF-translated. -/
+theorem features_crlf (reg : Registry) (ft : QFeature) (fs : List QFeature) (rest : Bytes)
+    (stk : List Bytes) (hw : tableWritable reg (ft :: fs) = true)
+    (hloc : (ft :: fs).all (fun x => Loc.canonP x.loc) = true) (hrest : (sp 5).isPrefixOf rest = false) :
+    ∃ t, tableText reg (ft :: fs) = .ok t ∧
+      featuresField reg ⟨Origin.crlf (bs "FEATURES             Location/Qualifiers\n" ++ (t ++ [10])) ++ rest, stk⟩ =
+        (.ok ((ft :: fs).map (readFeatureC reg), learnTable reg (ft :: fs)), ⟨rest, []⟩) :=
+  features_roundtripC reg reg (sameText_refl reg) ft fs rest stk hw
+    (fun x hx => locRTC_of_canon x.loc (List.all_eq_true.mp hloc x hx)) hrest
+
+/-- non-vacuity: `fixedWitness'` (quoted, toggle, unknown, literal qualifiers) is in the domain -/
+example : tableWritable Registry.default fixedWitness' = true ∧
+    (fixedWitness'.all fun x => Loc.canonP x.loc) = true := by
+  refine ⟨by decide +kernel, by decide +kernel⟩
+
+/-- **read (crlf (write r)), exactly.**  For every record of the domain `Writable reg r p` (the domain
+of `read_write`: NO further clause — carriage returns inside field texts are excluded by `Writable`
+already, because `pars.Line` ends a line at a lone CR in the LF text as well; inside quoted values
+they are allowed and survive) whose locations are read back in front of a carriage return (`LocRTC`:
+every canonical location, `locations_crlf_from_C06`): `GenBank.String` succeeds with a text `t`, and
+`GenBankParser` run on the CRLF translation of `t` followed by ANY further text `rest'` returns the
+record `readBackC reg r p`, consumes exactly the translated text and ends with the registry
+`learnTable reg r.table` — the registry and the rest of the LF reading.  `readBackC` is `readBack`
+with the table read as `readFeatureC`: header fields, keys, locations, qualifier names, literal and
+toggle values and the residues are those of the LF reading; a value written between quotes is its
+CRLF translation. -/
+theorem read_write_crlf_exact (reg : Registry) (r : Record) (p : Bytes) (ho : r.origin = .residues p)
+    (hw : Writable reg r p = true) (hloc : ∀ x ∈ r.table, LocRTC x.loc) (rest' : Bytes) :
+    ∃ t, write reg r = .ok t ∧ t ≠ [] ∧
+      genbankParser reg ⟨Origin.crlf t ++ rest', []⟩ =
+        (.ok (readBackC reg r p, learnTable reg r.table), ⟨rest', []⟩) :=
+  read_write_crlf_gen reg reg (sameText_refl reg) r p ho hw hloc rest'
+
+/-- the witness of finding F36: one feature with a `/note` of two lines -/
+def crlfWitness : Record :=
+  ⟨{ Fields.empty with locusName := bs "X", molecule := bs "DNA", date := ⟨1, 1, 1⟩ },
+   [⟨bs "gene", .point 0, [[bs "note", bs "a\nb"]]⟩], .residues []⟩
+
+/-- `read_write_crlf`, FULL STATEMENT (false): "for every `Writable` record with canonical locations,
+`GenBankParser` reads from the CRLF translation of the written text the SAME record as from the
+written text".  Witness `crlfWitness` (in the decidable domain `WritableRecord` of `read_write_canon`):
+the LF text gives the note `a\nb`, its CRLF translation gives `a\r\nb` — a carriage return inside the
+value, which the next `GenBank.String` writes out again (`a\r\n` + indent + `b`) and every later
+reading keeps.  Replayed on the real code: `gb.read (R () () ()) x<text>` answers `… x6e6f7465 x610a62 …`
+for the text and `… x6e6f7465 x610d0a62 …` for its CRLF translation.  In a real GenBank file with CRLF
+line ends every wrapped `/translation`, `/note`, `/product` … is read this way. -/
+theorem read_write_crlf_full_refuted :
+    WritableRecord Registry.default crlfWitness [] = true ∧
+    ∃ t, write Registry.default crlfWitness = .ok t ∧
+      (∃ rl rc g, genbankParser Registry.default ⟨t, []⟩ = (.ok (rl, g), ⟨[], []⟩) ∧
+        genbankParser Registry.default ⟨Origin.crlf t, []⟩ = (.ok (rc, g), ⟨[], []⟩) ∧
+        rl.table.map (·.props) = [[[bs "note", bs "a\nb"]]] ∧
+        rc.table.map (·.props) = [[[bs "note", bs "a\r\nb"]]]) ∧
+      (genbankParser Registry.default ⟨Origin.crlf t, []⟩).1 ≠ (genbankParser Registry.default ⟨t, []⟩).1 := by
+  have hwr : WritableRecord Registry.default crlfWitness [] = true := by decide +kernel
+  refine ⟨hwr, ?_⟩
+  have hwr' := hwr
+  simp only [WritableRecord, Bool.and_eq_true] at hwr'
+  obtain ⟨t, h1, _, h2⟩ := GenBank.read_write Registry.default crlfWitness [] rfl hwr'.1
+    (fun x hx => locRT_of_canon x.loc (List.all_eq_true.mp hwr'.2 x hx)) []
+  obtain ⟨t', h1', _, h3⟩ := read_write_crlf_gen Registry.default Registry.default (sameText_refl _) crlfWitness []
+    rfl hwr'.1 (fun x hx => locRTC_of_canon x.loc (List.all_eq_true.mp hwr'.2 x hx)) []
+  rw [h1] at h1'
+  cases h1'
+  simp only [List.append_nil] at h2 h3
+  have hl : (readBack Registry.default crlfWitness []).table.map (·.props) = [[[bs "note", bs "a\nb"]]] := by
+    decide +kernel
+  have hc : (readBackC Registry.default crlfWitness []).table.map (·.props) = [[[bs "note", bs "a\r\nb"]]] := by
+    decide +kernel
+  refine ⟨t, h1, ⟨_, _, _, h2, h3, hl, hc⟩, ?_⟩
+  rw [h2, h3]
+  intro e
+  have e' : readBackC Registry.default crlfWitness [] = readBack Registry.default crlfWitness [] := by
+    injection e with e1
+    exact congrArg Prod.fst e1
+  have := congrArg (fun x : Record => x.table.map (·.props)) e'
+  simp only [hl, hc] at this
+  revert this
+  decide +kernel
+
+/-- non-vacuity of `read_write_crlf_exact`: the witness of the finding meets its hypotheses (the
+theorem says what IS read from the CRLF text: the note `a\r\nb`) -/
+example : Writable Registry.default crlfWitness [] = true ∧ (∀ x ∈ crlfWitness.table, LocRTC x.loc) ∧
+    (readBackC Registry.default crlfWitness []).table.map (·.props) = [[[bs "note", bs "a\r\nb"]]] := by
+  have h := read_write_crlf_full_refuted.1
+  simp only [WritableRecord, Bool.and_eq_true] at h
+  exact ⟨h.1, fun x hx => locRTC_of_canon x.loc (List.all_eq_true.mp h.2 x hx), by decide +kernel⟩
+
+/-- **read (crlf (write r)) = read (write r), proved part** (guard `quotedOneLine reg r.table`,
+decidable: no value that is written between quotes — its name registered as quoted, or unknown —
+contains a line feed; literal values may).  For a `Writable` record with canonical locations:
+`GenBankParser` on the CRLF translation of the written text, followed by any text `rest'`, returns
+`readBack reg r p`, the registry `learnTable reg r.table` and leaves `rest'` — the very answer of
+`read_write` for the LF text; the two runs are equal. -/
+theorem read_write_crlf_partial (reg : Registry) (r : Record) (p : Bytes) (ho : r.origin = .residues p)
+    (hw : WritableRecord reg r p = true) (quotedOneLine : quotedOneLine reg r.table = true) (rest' : Bytes) :
+    ∃ t, write reg r = .ok t ∧
+      genbankParser reg ⟨Origin.crlf t ++ rest', []⟩ =
+        (.ok (readBack reg r p, learnTable reg r.table), ⟨rest', []⟩) ∧
+      genbankParser reg ⟨Origin.crlf t ++ rest', []⟩ = genbankParser reg ⟨t ++ rest', []⟩ := by
+  simp only [WritableRecord, Bool.and_eq_true] at hw
+  obtain ⟨t, h1, _, h2⟩ := GenBank.read_write reg r p ho hw.1
+    (fun x hx => locRT_of_canon x.loc (List.all_eq_true.mp hw.2 x hx)) rest'
+  obtain ⟨t', h1', _, h3⟩ := read_write_crlf_gen reg reg (sameText_refl reg) r p ho hw.1
+    (fun x hx => locRTC_of_canon x.loc (List.all_eq_true.mp hw.2 x hx)) rest'
+  rw [h1] at h1'
+  cases h1'
+  rw [readBackC_eq_readBack reg r p quotedOneLine] at h3
+  exact ⟨t, h1, h3, by rw [h2, h3]⟩
+
+/-- non-vacuity: `wrwWitness` (region, multi-line DEFINITION, quoted / toggle / unknown / literal
+qualifiers, residues) meets the hypotheses of `read_write_crlf_partial`; `crlfWitness` meets all but
+the guard -/
+example : WritableRecord Registry.default wrwWitness (List.replicate 12 97) = true ∧
+    quotedOneLine Registry.default wrwWitness.table = true ∧
+    WritableRecord Registry.default crlfWitness [] = true ∧
+    quotedOneLine Registry.default crlfWitness.table = false := by
+  refine ⟨by decide +kernel, by decide +kernel, read_write_crlf_full_refuted.1, by decide +kernel⟩
+
+/-- **Streams in a CRLF file, exactly** (framing, with learning).  `WriteSeq` for every record under
+`reg`, the CRLF translation of the whole stream read by `GenBankParser` until the input is used up,
+starting from any registry `reg'` that writes the same text as `reg` and carrying what each record
+teaches to the next: exactly the records, each as `readBackC reg`, no error, and the final registry
+`learnStream reg'` of the LF reading (`read_stream_learning_from`).  Every record is read from
+exactly its own translated text. -/
+theorem read_stream_crlf_exact (reg reg' : Registry) (hs : sameText reg reg') (rs : List (Record × Bytes))
+    (hall : ∀ x ∈ rs, x.1.origin = .residues x.2 ∧ Writable reg x.1 x.2 = true ∧ (∀ f ∈ x.1.table, LocRTC f.loc)) :
+    ∃ t, writeAll reg (rs.map (·.1)) = .ok t ∧
+      readAll reg' (Origin.crlf t) =
+        some (rs.map (fun x => readBackC reg x.1 x.2), learnStream reg' (rs.map (·.1)), true) :=
+  read_stream_crlf_learning reg reg' hs rs hall
+
+/-- **read_stream_crlf, proved part** (guard `quotedOneLine` for every record; the full statement
+fails at the one-record stream `[crlfWitness]`, `read_write_crlf_full_refuted`): a stream of
+`WritableRecord`s written with `WriteSeq` reads from its CRLF translation exactly as from the
+written bytes — the same records (`readBack`), the same final registry, no error. -/
+theorem read_stream_crlf_partial (reg reg' : Registry) (hs : sameText reg reg') (rs : List (Record × Bytes))
+    (hall : ∀ x ∈ rs, x.1.origin = .residues x.2 ∧ WritableRecord reg x.1 x.2 = true ∧
+      quotedOneLine reg x.1.table = true) :
+    ∃ t, writeAll reg (rs.map (·.1)) = .ok t ∧
+      readAll reg' (Origin.crlf t) =
+        some (rs.map (fun x => readBack reg x.1 x.2), learnStream reg' (rs.map (·.1)), true) ∧
+      readAll reg' (Origin.crlf t) = readAll reg' t := by
+  have hall1 : ∀ x ∈ rs, x.1.origin = .residues x.2 ∧ Writable reg x.1 x.2 = true ∧ (∀ f ∈ x.1.table, LocRTC f.loc) := by
+    intro x hx
+    obtain ⟨ho, hw, _⟩ := hall x hx
+    simp only [WritableRecord, Bool.and_eq_true] at hw
+    exact ⟨ho, hw.1, fun f hf => locRTC_of_canon f.loc (List.all_eq_true.mp hw.2 f hf)⟩
+  have hall2 : ∀ x ∈ rs, x.1.origin = .residues x.2 ∧ Writable reg x.1 x.2 = true ∧ (∀ f ∈ x.1.table, LocRT f.loc) := by
+    intro x hx
+    obtain ⟨ho, hw, _⟩ := hall x hx
+    simp only [WritableRecord, Bool.and_eq_true] at hw
+    exact ⟨ho, hw.1, fun f hf => locRT_of_canon f.loc (List.all_eq_true.mp hw.2 f hf)⟩
+  obtain ⟨t, h1, h2⟩ := read_stream_crlf_learning reg reg' hs rs hall1
+  obtain ⟨t', h1', h3⟩ := GenBank.read_stream_learning reg reg' hs rs hall2
+  rw [h1] at h1'
+  cases h1'
+  have hmap : rs.map (fun x => readBackC reg x.1 x.2) = rs.map (fun x => readBack reg x.1 x.2) :=
+    List.map_congr_left fun x hx => readBackC_eq_readBack reg x.1 x.2 (hall x hx).2.2
+  rw [hmap] at h2
+  exact ⟨t, h1, h2, by rw [h2, h3]⟩
+
+/-- non-vacuity: the two records of `streamWitness` (the first teaches `my_tag`) meet the hypotheses
+of `read_stream_crlf_partial` and of `read_stream_crlf_exact` -/
+example : (∀ x ∈ streamWitness, x.1.origin = .residues x.2 ∧ WritableRecord Registry.default x.1 x.2 = true ∧
+      quotedOneLine Registry.default x.1.table = true) ∧
+    (∀ x ∈ streamWitness, x.1.origin = .residues x.2 ∧ Writable Registry.default x.1 x.2 = true ∧
+      (∀ f ∈ x.1.table, LocRTC f.loc)) := by
+  have h : ∀ x ∈ streamWitness, x.1.origin = .residues x.2 ∧ WritableRecord Registry.default x.1 x.2 = true ∧
+      quotedOneLine Registry.default x.1.table = true := by decide +kernel
+  refine ⟨h, fun x hx => ?_⟩
+  obtain ⟨ho, hw, _⟩ := h x hx
+  simp only [WritableRecord, Bool.and_eq_true] at hw
+  exact ⟨ho, hw.1, fun f hf => locRTC_of_canon f.loc (List.all_eq_true.mp hw.2 f hf)⟩
 
 end Gts.C01
